@@ -521,7 +521,9 @@ ADDED3 = {
     "C15": "A generator listed before a list of choices.",
     "C16": "Scheduler directives after the first command count as ignored.",
     "C17": "Float grid labels (titles read back as the coordinate), a label "
-           "occurring twice on z, cells centred on their coordinates.",
+           "occurring twice on z, cells centred on their coordinates; "
+           "non-positive x values on a logarithmic x axis (still drawn "
+           "points of the series).",
     "C18": "Aggregation without any mapped dimension, infinite values; x "
            "that is itself a result varying from line to line (linked "
            "along a dimension) with NaNs in x, in y, in both, with and "
